@@ -61,6 +61,22 @@ class AbstractOnlineResetVisitor(AbstractAstVisitor):
 class AbstractOnlineUpdateVisitor(AbstractAstVisitor):
     def __init__(self):
         self.results = dict()
+        self.visited = dict()
+
+    def visitAst(self, ast, *args, **kwargs):
+        # every operator is stepped once per update: sub-formulas that share an
+        # operator (same name) are evaluated once and their value is reused
+        self.visited = dict()
+        return super(AbstractOnlineUpdateVisitor, self).visitAst(ast, *args, **kwargs)
+
+    def visit(self, node, *args, **kwargs):
+        if node.name in self.visited:
+            sample_return = self.visited[node.name]
+            self.results[node] = sample_return
+            return sample_return
+        sample_return = super(AbstractOnlineUpdateVisitor, self).visit(node, *args, **kwargs)
+        self.visited[node.name] = sample_return
+        return sample_return
 
     def visitSpec(self, node, online_operator_dict, var_object_dict):
         sample_return = self.visit(node, online_operator_dict, var_object_dict)
